@@ -813,9 +813,12 @@ pub fn minimise_with(plan: &Plan, fails: &dyn Fn(&Plan) -> bool) -> (Plan, u64) 
             }
         };
         // drop whole phases
-        for which in 0..5 {
+        for which in 0..8 {
             let mut c = best.clone();
             match which {
+                5 => c.pack = Default::default(),
+                6 => c.pack.write_sched.clear(),
+                7 => c.pack.read_sched.clear(),
                 0 => c.reads.clear(),
                 1 => c.flips.clear(),
                 2 => c.write_sched.clear(),
